@@ -8,7 +8,7 @@ From LV Require Import Base.Prelude Cfg.Grammar Earley.Spec Forest.ExplicitToTre
   Earley.Alg Earley.Alg_proofs Forest.ExplicitAlgBuild Forest.ExplicitAlgBuild_proofs
   Earley.Dyn Earley.Dyn_proofs Forest.ExplicitDynBuild Forest.ExplicitDynSound Forest.ExplicitDynBuild_proofs
   Forest.ExplicitDynFamilies_proofs Forest.ExplicitDynComplete_proofs Forest.ExplicitDynExact_proofs
-  Forest.ExplicitGraph Forest.ExplicitGraphCheck Forest.ExplicitGraph_proofs.
+  Forest.ExplicitGraph Forest.ExplicitGraphCheck Forest.ExplicitGraph_proofs Gen.ExplicitWalk Forest.ExplicitWalkTie.
 Import ListNotations.
 Local Open Scope string_scope.
 Local Open Scope list_scope.
@@ -463,6 +463,31 @@ Theorem C04_B_cyclic_cycle_free_exact_refuted :
               In cx_pumped (derivs nd) /\ ~ sder cx_g2 [] 0 [cx_pumped]).
 Proof. exact cyclic_kept_is_order_dependent. Qed.
 Print Assumptions C04_B_cyclic_cycle_free_exact_refuted.
+
+(* Tie by regeneration.  translator/gen_explicit.py pins, by fail-closed source templates, the bodies of
+   ForestToParseTree.on_cycle, _check_cycle, visit_symbol_node_in, visit_packed_node_in / _out, transform_symbol_node,
+   transform_intermediate_node, transform_packed_node, _call_ambig_func, _collapse_ambig, visit, of
+   ForestTransformer._visit_node_out_helper and of PackedData.__init__, and regenerates their conditions into
+   Gen/ExplicitWalk.v on every run.  The conditions the hand models build in are equal to the regenerated ones: for the
+   walk over cyclic forests (Forest/ExplicitGraph.v) and for the tree construction (Forest/ExplicitToTree.v). *)
+Theorem C04_walk_conditions_are_source :
+  on_cycle_sets_retreat = true
+  /\ retreat_stops false false = false
+  /\ (forall c, retreat_stops c true = true)
+  /\ (forall r, sym_in_skips r = r)
+  /\ (forall ps, packed_in_visits false ps = true)
+  /\ (forall cached, packed_in_uncached true cached = negb cached)
+  /\ (forall r, packed_out_marks r = negb r).
+Proof. exact walk_conditions_are_source. Qed.
+Print Assumptions C04_walk_conditions_are_source.
+
+Theorem C04_tree_conditions_are_source :
+  iambig_above = 1 /\ ambig_above = 1
+  /\ (forall x, call_ambig [x] = x)
+  /\ (forall x y l, call_ambig (x :: y :: l) = Nd AMBIG (x :: y :: l))
+  /\ (forall li ll, left_spliced li ll = li && ll).
+Proof. exact tree_conditions_are_source. Qed.
+Print Assumptions C04_tree_conditions_are_source.
 
 (* Non-vacuity: the forest lark builds for
      start: _i q _i     _i: A | A A     ?q: A? "a"     A: "a"          on "aaaa" (dynamic lexer)
